@@ -50,6 +50,10 @@ pub struct Ctx {
     pub rep: Report,
     /// if set: run only this case (replay)
     pub only: Option<Vec<String>>,
+    pub t0: std::time::Instant,
+    /// wall-clock budget in seconds (PBMON_BUDGET_S): workloads stop generating new cases when it is
+    /// used up (the Miri legs are sized by time, not by count)
+    pub budget_s: Option<f64>,
 }
 
 impl Ctx {
@@ -69,6 +73,15 @@ impl Ctx {
     }
     pub fn is_replay(&self) -> bool {
         self.only.is_some()
+    }
+    pub fn over_budget(&mut self) -> bool {
+        match self.budget_s {
+            Some(b) if self.t0.elapsed().as_secs_f64() > b => {
+                self.rep.counters.insert("stopped_by_time_budget".into(), 1);
+                true
+            }
+            _ => false,
+        }
     }
 }
 
@@ -145,6 +158,8 @@ fn main() {
         scale,
         rep: Report::default(),
         only: if replay { Some(rest.clone()) } else { None },
+        t0: std::time::Instant::now(),
+        budget_s: std::env::var("PBMON_BUDGET_S").ok().and_then(|s| s.parse().ok()),
     };
     ctx.rep.verbose = replay;
 
